@@ -86,7 +86,7 @@ check_table(const table *t)
     CHECK("one record per live block and no others (count)", malloc_rec.cnt == (size_t) t->n);
     if (t->n > 0) {
         CHECK("table storage present", malloc_rec.ptrs != NULL);
-        CBMC_ONLY(CHECK("table storage large enough", malloc_rec.ptrs == NULL || __CPROVER_OBJECT_SIZE(malloc_rec.ptrs) >= sizeof(spifmem_ptr_t) * (size_t) t->n));
+        CHECK("table storage large enough", malloc_rec.ptrs == NULL || OBJ_SIZE(malloc_rec.ptrs) >= sizeof(spifmem_ptr_t) * (size_t) t->n);
     }
     for (i = 0; i < t->n && malloc_rec.ptrs && malloc_rec.cnt == (size_t) t->n; i++) {
         hits = 0;
@@ -135,7 +135,7 @@ h_alloc(int n, int op, int flen, int active)
         case 2: size = 3; p = spifmem_strdup("v", file, line, "ab"); break;
     }
     CHECK("allocation returned a block", p != NULL);
-    CBMC_ONLY(CHECK("block has the requested size", p == NULL || __CPROVER_OBJECT_SIZE(p) == size));
+    CHECK("block has the requested size", p == NULL || OBJ_SIZE(p) == size);
     if (active) {
         t_add(&t, p, size, file, line);
     }
@@ -226,7 +226,7 @@ h_macros(int memnull, int size, int level)
     rb = lo_realloc(b, (size_t) size);          /* tracking compiled out */
     CHECK("REALLOC: NULL result in the same cases", (ra == NULL) == (rb == NULL));
     if (ra && rb) {
-        CBMC_ONLY(CHECK("REALLOC: block of the requested size either way", __CPROVER_OBJECT_SIZE(ra) == (size_t) size && __CPROVER_OBJECT_SIZE(rb) == (size_t) size));
+        CHECK("REALLOC: block of the requested size either way", OBJ_SIZE(ra) == (size_t) size && OBJ_SIZE(rb) == (size_t) size);
         if (!memnull && size >= 2) {
             CHECK("REALLOC: contents carried over either way", ((unsigned char *) ra)[0] == ((unsigned char *) rb)[0] && ((unsigned char *) ra)[1] == 7);
         }
